@@ -1,7 +1,7 @@
 """C05 correspondence: `x in S` — implementation vs Lean model vs exact containment."""
 import random
 from fractions import Fraction as F
-from .. import core, gen, compare, admit, exact as E
+from .. import core, gen, compare, admit, exact as E, interlib
 from ..gen import Gen, tok
 from ..exact import sub, dot, cross, is0, nsq
 
@@ -93,7 +93,7 @@ def work(args):
     for i in range(n):
         x, C, cls = make_case(G, idx * 5 + i)
         try:
-            xo, co = impl.build(x), impl.build(C)
+            xo, co = interlib.build_pair(impl, x, C)      # one case in six: an operand arrives by a primed in-place move
             r = core.guarded(impl.call, lambda a, b: a in b, xo, co)
         except Exception as e:
             r = ('ctor-exc', type(e).__name__)
@@ -151,7 +151,8 @@ def replay(ctx, case):
     from .. import impl
     c = case['case']
     x, C = gen.from_jsonable(c['x']), gen.from_jsonable(c['c'])
-    r = impl.call(lambda a, b: a in b, impl.build(x), impl.build(C))
+    xo, co = interlib.build_pair(impl, x, C)
+    r = impl.call(lambda a, b: a in b, xo, co)
     t = truth(x, C)
     print('(%s) in (%s): implementation %s, exact %s' % (tok(x), tok(C), r, t))
     ok = r == ('ok', t)
